@@ -3,7 +3,7 @@
    stack as it found it and consumes a prefix of the current bytes. *)
 From Coq Require Import NArith ZArith List Lia Bool.
 From Coq Require Import ZifyBool ZifyN ZifyNat.
-From Desert Require Import Bits Outcome IO IOProofs Types Codec CodecWf.
+From Desert Require Import Bits Outcome IO IOProofs Types Calendar Codec CodecWf.
 Import ListNotations.
 Open Scope N_scope.
 
@@ -167,9 +167,64 @@ Proof.
   apply good_ok.
 Qed.
 
+(* --- features/chrono.rs helpers --- *)
+Lemma dec_small_good lo hi s : good (dec_small a_ops lo hi s) s.
+Proof.
+  unfold dec_small.
+  eapply good_bind; [apply read_i8_good|]. intros z s1 Fr1. cbv beta iota.
+  destruct (_ && _); [apply good_ok | exact I].
+Qed.
+
+Lemma dec_offset_good s : good (dec_offset a_ops s) s.
+Proof.
+  unfold dec_offset.
+  eapply good_bind; [apply r_u8_good|]. intros t s1 Fr1. cbv beta iota.
+  destruct (t =? 0); [|exact I].
+  eapply good_bind; [apply read_var_i32_good|]. intros z s2 Fr2. cbv beta iota.
+  destruct (valid_offset z); [apply good_ok | exact I].
+Qed.
+
+Lemma dec_tz_good s : good (dec_tz a_ops s) s.
+Proof.
+  unfold dec_tz.
+  eapply good_bind; [apply r_u8_good|]. intros t s1 Fr1. cbv beta iota.
+  destruct (t =? 1); [|exact I].
+  eapply good_bind; [apply dec_string_good|]. intros v s2 Fr2. cbv beta iota.
+  destruct v; try exact I. destruct (tz_known bs); [apply good_ok | exact I].
+Qed.
+
+Lemma dec_ndate_good s : good (dec_ndate a_ops s) s.
+Proof.
+  unfold dec_ndate.
+  eapply good_bind; [apply read_var_u32_good|]. intros y s1 Fr1. cbv beta iota.
+  eapply good_bind; [apply r_u8_good|]. intros m s2 Fr2. cbv beta iota.
+  eapply good_bind; [apply r_u8_good|]. intros d s3 Fr3. cbv beta iota zeta.
+  destruct (valid_ymd _ m d); [apply good_ok | exact I].
+Qed.
+
+Lemma dec_ntime_good s : good (dec_ntime a_ops s) s.
+Proof.
+  unfold dec_ntime.
+  eapply good_bind; [apply r_u8_good|]. intros h s1 Fr1. cbv beta iota.
+  eapply good_bind; [apply r_u8_good|]. intros mi s2 Fr2. cbv beta iota.
+  eapply good_bind; [apply r_u8_good|]. intros sec s3 Fr3. cbv beta iota.
+  eapply good_bind; [apply read_var_u32_good|]. intros ns s4 Fr4. cbv beta iota.
+  destruct (valid_hmsn h mi sec ns); [apply good_ok | exact I].
+Qed.
+
+Lemma dec_ndt_good s : good (dec_ndt a_ops s) s.
+Proof.
+  unfold dec_ndt.
+  eapply good_bind; [apply dec_ndate_good|]. intros d s1 Fr1. cbv beta iota.
+  eapply good_bind; [apply dec_ntime_good|]. intros t s2 Fr2. cbv beta iota.
+  apply good_ok.
+Qed.
+
 Lemma dec_prim_good p s : supported_prim p = true -> good (dec_prim a_ops p s) s.
 Proof.
   intros Hp. destruct p; try discriminate Hp; unfold dec_prim.
+  all: try first [ apply dec_small_good | apply dec_offset_good | apply dec_tz_good
+                 | apply dec_ndate_good | apply dec_ntime_good | apply dec_ndt_good ].
   all: try (eapply good_bind; [ first [ apply r_u8_good | apply read_i8_good | apply read_be_good
                                      | apply read_signed_good | apply r_bytes_good ] |];
             intros x s1 Fr1; cbv beta iota; try apply good_ok).
@@ -182,6 +237,22 @@ Proof.
   - apply dec_bytes_good.
   - eapply good_bind; [apply dec_bytes_good|]. intros v s1 Fr1. cbv beta iota.
     destruct v; try exact I. apply good_ok.
+  - (* DateTime<Utc> *)
+    eapply good_bind; [apply read_be_good|]. intros y s2 Fr2. cbv beta iota.
+    destruct (valid_ts x y); [apply good_ok | exact I].
+  - (* DateTime<FixedOffset> *)
+    eapply good_bind; [apply dec_ndt_good|]. intros dt s1 Fr1. cbv beta iota.
+    eapply good_bind; [apply dec_offset_good|]. intros off s2 Fr2. cbv beta iota.
+    destruct off; try exact I.
+    destruct (valid_local_with_offset _ z); [apply good_ok | exact I].
+  - (* DateTime<Tz> *)
+    eapply good_bind; [apply dec_ndt_good|]. intros dt s1 Fr1. cbv beta iota.
+    eapply good_bind; [apply dec_tz_good|]. intros tz s2 Fr2. cbv beta iota.
+    apply good_ok.
+  - (* var_u32 *)
+    eapply good_bind; [apply read_var_u32_good|]. intros n s1 Fr1. cbv beta iota. apply good_ok.
+  - (* var_i32 *)
+    eapply good_bind; [apply read_var_i32_good|]. intros n s1 Fr1. cbv beta iota. apply good_ok.
 Qed.
 
 (* ------------------------------------------------------------------ *)
